@@ -45,6 +45,12 @@ CHECKS = {
    text="The real CLI is executed as a subprocess (RLIMIT_CPU, RLIMIT_AS, cleared environment) on generated projects of 1-3 files with random supported options. A run is clean iff it exits by itself with status 0 or 1, its last stdout line is the summary, the status matches the summary and stderr shows no panic, stack overflow or allocation failure. Evidence reports how many inputs were rejected by the lexer/parser, by the desugarer, or reached the analysis stage, and the histogram of report ids produced. All committed reproducers are replayed under all three curves. One recorded known finding (stack overflow on ~2000 nested operators) is reported as KNOWN-FINDING and excluded from the search by the generators' nesting bound.",
    note="Modest size = files <= 16 KiB and nesting depth <= 8. Hang = more than 120 CPU-seconds (480 on re-run), far above the documented 2 x 10 s time box. Absence of crashes cannot be established by sampling.",
    design="DESIGN.md §3 C01"),
+ "C02": dict(
+   level="fault_enumeration",
+   technique="fault injection on generated clean projects run through the real binary: enumeration of fault classes x injection positions (every token boundary of small files, every `;`, every definition) x levels, with an expected-diagnostic oracle (proptest tapes choose project and sampled positions; shrinking)",
+   text="Each generated project is first shown to be clean (exit 0, `No issues found.` at --level error, every definition analysed). One fault is then injected at a time: missing path, dangling symlink, invalid UTF-8, unsupported version (too new / too old), lexical error and unmatched closer before every token (exhaustive for files up to 40 tokens), every dropped `;`, 20 invalid tuple / anonymous-component statement forms in template and function bodies, repeated parameter, duplicated definition, several main components. At each of the three levels the run must exit non-zero and display an error-level diagnostic with an id from the fault's expected set, located in the faulted file where there is a file to point into.",
+   note="Unreadable files are simulated by invalid UTF-8 because the sandbox runs as root. Wording of messages is not inspected. Runs that crash are left to C01.",
+   design="DESIGN.md §3 C02"),
  "C03": dict(
    level="exploration",
    technique="differential testing of the real binary against an in-process reference that bypasses caches/writers/filters, plus algebraic filter laws over the level x allow-subset lattice and a SARIF round-trip, on generated multi-file projects (proptest tapes, shrinking)",
@@ -57,6 +63,12 @@ CHECKS = {
    text="For every label of every report of generated projects (with multi-byte text, comments of every shape, CRLF, tabs): file id known, range ordered, inside the file and on char boundaries; the trimmed extent equals the extent of a generator node of a kind admissible for that report id and mentions the subject named in the message; the binary's file:line:col and every SARIF region equal the position recomputed from the original bytes. Error inputs (lexical/syntax faults, unterminated comments after non-ASCII text) are checked the same way.",
    note="The id -> construct table is transcribed from the report constructors (validated on the unchanged tree); ids outside the table only need to coincide with some generator node. Trailing blanks/comments are trimmed because the grammar ends variables, numbers and includes at the next token.",
    design="DESIGN.md §3 C04"),
+ "C17": dict(
+   level="exploration",
+   technique="metamorphic testing of the real binary on generated projects: repeat (fresh random hasher per process), reorder files and definitions, insert unreferenced definitions; findings compared as multisets from SARIF (proptest tapes, shrinking)",
+   text="For generated multi-file projects: repeated runs must give identical findings including positions; reversing the order of the named files must give identical findings; permuting the definitions of every file must give the same findings modulo positions (rule id, level, normalised message, normalised text under every label); inserting an unreferenced template and function must leave all other findings unchanged while the inserted definitions get their own.",
+   note="Hash-map iteration orders are sampled by repeated processes (5 quick / 20 thorough per project), not enumerated.",
+   design="DESIGN.md §3 C17"),
  "C19": dict(
    level="exploration",
    technique="model-based testing: generated include graphs on a materialised directory tree, real binary run with the parser's debug log, compared with a reference include resolver (proptest tapes, shrinking)",
